@@ -458,6 +458,11 @@ func (a *absint) lenOf(v ssa.Value) ival {
 			if len(x.Call.Args) == 1 {
 				return a.lenOf(x.Call.Args[0])
 			}
+		case "(*math/big.Int).FillBytes":
+			// returns the buffer it was handed
+			if len(x.Call.Args) == 2 {
+				return a.lenOf(x.Call.Args[1])
+			}
 		case "slices.Concat":
 			if len(x.Call.Args) == 1 {
 				if els := variadicElemsOrdered(x.Call.Args[0]); els != nil {
